@@ -1034,7 +1034,8 @@ class Parsent(object):
                     bodyParser.close()
                     break
                 (yield None)
-        except HTTPException as ex:
+        except (HTTPException, ValueError) as ex:  # ValueError family: bad header
+            # line, chunk size, chunk end, port or IPv6 literal in url, undecodable text
             self.errored = True
             self.error = str(ex)
 
